@@ -17,15 +17,16 @@ Definition lookup_value (coll index : json) : option json :=
 
 (* C08: what a finished construct leaves exactly as it found it (Appendix C of
    DESIGN.md): the block stack (current context, ../ chain, block params and
-   @-variables), the partial-block stack, the indent string, the root template
+   @-variables), the partial-block stack and depth (the @partial-block
+   binding), the current template name, the indent string, the root template
    name and the dev-mode templates; the escape toggle can only go from true to
    false (an html expression ends with `false`, not with the previous value),
    so it is unchanged whenever it was false before.  NOT included, because
-   false of the model: s_pb_depth (F3), s_current (F4).  NOT included,
-   deliberately persistent: s_partials, s_local_helpers, s_modified (decorators);
-   the writer s_out, the log and the three "last write" flags. *)
+   deliberately persistent: s_partials, s_local_helpers, s_modified
+   (decorators); the writer s_out, the log and the three "last write" flags. *)
 Definition restored (s s' : rstate) : Prop :=
-  s_blocks s' = s_blocks s /\ s_pb_stack s' = s_pb_stack s /\ s_indent s' = s_indent s /\
+  s_blocks s' = s_blocks s /\ s_pb_stack s' = s_pb_stack s /\ s_pb_depth s' = s_pb_depth s /\
+  s_current s' = s_current s /\ s_indent s' = s_indent s /\
   s_root s' = s_root s /\ s_dev s' = s_dev s /\
   (s_disable_escape s' = true -> s_disable_escape s = true).
 
@@ -37,6 +38,66 @@ Definition flags_only (s1 s2 : rstate) : Prop :=
   s_local_helpers s1 = s_local_helpers s2 /\ s_current s1 = s_current s2 /\ s_root s1 = s_root s2 /\
   s_disable_escape s1 = s_disable_escape s2 /\ s_indent s1 = s_indent s2 /\ s_dev s1 = s_dev s2 /\
   s_out s1 = s_out s2 /\ s_log s1 = s_log s2 /\ s_esc_trace s1 = s_esc_trace s2.
+
+(* C08 (flags): "no indentation active", syntactically: no partial element
+   (ElPartExpr / ElPartBlock) anywhere in the template -- nested templates,
+   subexpressions, decorator blocks included -- carries an indent string *)
+Fixpoint ni_param (p : param) {struct p} : bool :=
+  match p with PSub e => ni_element e | _ => true end
+with ni_element (e : element) {struct e} : bool :=
+  match e with
+  | ElRaw _ => true
+  | ElComment _ => true
+  | ElExpr h => ni_helper h
+  | ElHtml h => ni_helper h
+  | ElBlock h => ni_helper h
+  | ElDecoExpr d => ni_deco false d
+  | ElDecoBlock d => ni_deco false d
+  | ElPartExpr d => ni_deco true d
+  | ElPartBlock d => ni_deco true d
+  end
+with ni_helper (h : helper_t) {struct h} : bool :=
+  match h with
+  | MkH n ps hs _ tpl inv _ _ _ =>
+      ni_param n && forallb ni_param ps && forallb (fun kv : str * param => ni_param (snd kv)) hs
+      && match tpl with Some t => ni_template t | None => true end
+      && match inv with Some t => ni_template t | None => true end
+  end
+with ni_deco (part : bool) (d : deco_t) {struct d} : bool :=
+  match d with
+  | MkD n ps hs tpl ind _ =>
+      ni_param n && forallb ni_param ps && forallb (fun kv : str * param => ni_param (snd kv)) hs
+      && match tpl with Some t => ni_template t | None => true end
+      && (if part then match ind with None => true | Some _ => false end else true)
+  end
+with ni_template (t : template) {struct t} : bool :=
+  match t with MkT _ els _ => forallb ni_element els end.
+
+Definition no_indent (t : template) : Prop := ni_template t = true.
+Definition opt_ni (o : option template) : Prop := match o with Some t => no_indent t | None => True end.
+Definition ni_map (m : list (str * template)) : Prop := forall k t, map_get m k = Some t -> no_indent t.
+
+
+(* C08 (flags): two outcomes that are the same up to the three flags of the
+   final state *)
+Definition same_up_to_flags {A} (x y : rres A) : Prop :=
+  match x, y with
+  | ROk v t1, ROk v' t2 => v = v' /\ flags_only t1 t2
+  | RErr e t1, RErr e' t2 => e = e' /\ flags_only t1 t2
+  | RPanic p, RPanic q => p = q
+  | RFuel, RFuel => True
+  | _, _ => False
+  end.
+
+(* C08 (flags): the state carries no indentation and no `state` probe helper:
+   the indent string is None, the templates it holds (inline partials,
+   partial blocks, dev-mode templates) are no_indent, and no local helper is
+   HState *)
+Definition flags_ready (s : rstate) : Prop :=
+  s_indent s = None /\ ni_map (s_partials s) /\
+  Forall (fun e : template * Z => no_indent (fst e)) (s_pb_stack s) /\
+  match s_dev s with Some dm => ni_map dm | None => True end /\
+  (forall n, map_get (s_local_helpers s) n <> Some HState).
 
 (* C09: partial.rs expand_partial, in pieces *)
 Section PartialSpec.
@@ -60,10 +121,16 @@ Section PartialSpec.
         end
     end.
 
-  (* the partial-block depth bookkeeping on entry (never undone: F3) *)
+  (* entering {{> @partial-block}}: inside the block body, @partial-block is
+     the one of the template the body was written in (the depth recorded with
+     the entry); any other partial leaves the binding alone.  Undone by
+     partial_cleanup. *)
   Definition depth_step (d : deco_v) (s : rstate) : rstate :=
-    if str_eqb (dv_name d) PARTIAL_BLOCK then set_pb_depth s (s_pb_depth s + 1)%Z
-    else if Z.ltb 0 (s_pb_depth s) then set_pb_depth s (s_pb_depth s - 1)%Z
+    if str_eqb (dv_name d) PARTIAL_BLOCK then
+      match current_pb s with
+      | Some (_, d0) => set_pb_depth s d0
+      | None => s
+      end
     else s.
 
   Definition hash_values (d : deco_v) : list (str * json) :=
@@ -83,17 +150,24 @@ Section PartialSpec.
                   (fun r s' => ROk (merge_json (sc_json r) (hash_values d)) s')
     end.
 
-  (* the state the partial's template is rendered from *)
+  (* the state the partial's template is rendered from: one block holding the
+     merged value; when the call has a block, it is pushed with the depth
+     current at the call and becomes what @partial-block denotes *)
   Definition partial_inner (d : deco_v) (merged : json) (s : rstate) : rstate :=
     let s4 := set_blocks s [b_set_base_value block_new merged] in
-    let s5 := match dv_tpl d with Some pb => set_pb_stack s4 (pb :: s_pb_stack s4) | None => s4 end in
+    let s5 := match dv_tpl d with
+              | Some pb => set_pb_depth (set_pb_stack s4 ((pb, s_pb_depth s4) :: s_pb_stack s4))
+                                        (Z.of_nat (S (List.length (s_pb_stack s4))))
+              | None => s4
+              end in
     set_indent s5 (dv_indent d).
 
   (* what expand_partial puts back afterwards; `before` is the state in which
      the partial was looked up *)
   Definition partial_cleanup (d : deco_v) (before : rstate) (s : rstate) : rstate :=
     let sa := match dv_tpl d with Some _ => set_pb_stack s (tl (s_pb_stack s)) | None => s end in
-    set_indent (set_current (set_blocks sa (s_blocks before)) (s_current before)) (s_indent before).
+    set_indent (set_pb_depth (set_current (set_blocks sa (s_blocks before)) (s_current before))
+                             (s_pb_depth before)) (s_indent before).
 
   Definition is_self (d : deco_v) (s : rstate) : bool :=
     match s_current s with Some c => str_eqb c (dv_name d) | None => false end.
